@@ -205,6 +205,21 @@ def run_case(spec, j):
       if dxx != 0:
         ident_ok = False
         bad = ('ident', i, dxx)
+      if i < 4 and np.all(np.abs(x[i]) < 2 ** 31):
+        # arguments stored differently (an integer grid point given as a
+        # list, a float vector): still symmetric, still a pseudo-metric
+        xi = np.round(x[i]).astype(np.int64).tolist()
+        with np.errstate(all='ignore'):
+          a_, b_ = metric(xi, y[i]), metric(y[i], xi)
+          c_, e_ = metric(xi, z[i]), metric(y[i], z[i])
+        if not (a_ == b_ or (a_ != a_ and b_ != b_)):
+          sym_ok = False
+          bad = ('sym-mixed-dtypes', i, a_, b_)
+        if np.isfinite(a_) and np.isfinite(c_) and np.isfinite(e_):
+          sl_ = _slack(Lfro, np.round(x[i]), y[i], z[i])
+          if e_ - (a_ + c_) > sl_:
+            tri_ok = False
+            bad = ('tri-mixed-dtypes', i, e_, a_, c_, sl_)
       if np.isfinite(dxy) and np.isfinite(dyz) and np.isfinite(dxz):
         sl = _slack(Lfro, x[i], y[i], z[i])
         if dxz - (dxy + dyz) > sl:
